@@ -250,6 +250,14 @@ func (e *FEnc) instr(st *State, b *ssa.BasicBlock, idx int, in ssa.Instruction) 
 		e.heapSet(st, vn, vs, fmt.Sprintf("(store %s %s (store (select %s %s) %s %s))", hv, m, hv, m, k, v))
 	case *ssa.Range:
 		e.define(x, &Val{Ty: x.Type(), Sort: "Iter", T: "iter"})
+		if mt, ok := x.X.Type().Underlying().(*types.Map); ok {
+			// ghost: the set of keys the iteration has visited so far (starts empty)
+			gs := "(Array " + e.sortOf(mt.Key()) + " Bool)"
+			id := len(e.allocs)
+			e.allocs = append(e.allocs, &AllocInfo{ID: id, Name: "visited", GhostSort: gs})
+			st.cells[id] = &Val{Sort: gs, T: fmt.Sprintf("((as const %s) false)", gs)}
+			e.rangeGhost[x] = id
+		}
 	case *ssa.Next:
 		e.next(st, x)
 	case *ssa.MakeClosure:
@@ -316,10 +324,7 @@ func (e *FEnc) indexAddr(st *State, x *ssa.IndexAddr) {
 	case *types.Slice:
 		s := e.term(base)
 		e.safetyOb(st, "idx", x, x.X.Name()+"["+x.Index.Name()+"]", fmt.Sprintf("(and (<= 0 %s) (< %s (sl_len %s)))", i, i, s))
-		abs := fmt.Sprintf("(+ (sl_off %s) %s)", s, i)
-		if strings.HasPrefix(s, "(mk_slice ") {
-			abs = fmt.Sprintf("(+ (sl_off %s) %s)", s, i)
-		}
+		abs := e.d.slIdx(s, i)
 		e.define(x, &Val{Ty: x.Type(), Sort: "Ref", P: &Ptr{Root: rElem, Base: fmt.Sprintf("(sl_base %s)", s), Idx: abs, Elem: t.Elem()}})
 	case *types.Pointer:
 		at := t.Elem().Underlying().(*types.Array)
@@ -387,7 +392,19 @@ func (e *FEnc) next(st *State, x *ssa.Next) {
 				if !isInvalid(tup.At(2).Type()) {
 					f = and(f, eq(vv.T, fmt.Sprintf("(select (select %s %s) %s)", hv, m, kv.T)))
 				}
-				e.fact(implies(ok, f))
+				e.fact(implies(ok, and(f, not(eq(m, "nil_ref")))))
+				// every key is visited exactly once, and the iteration ends only when all were
+				if gid, has := e.rangeGhost[rng]; has {
+					if cell, okc := st.cells[gid]; okc {
+						v := cell.T
+						ks := e.sortOf(mt.Key())
+						e.fact(implies(ok, not(fmt.Sprintf("(select %s %s)", v, kv.T))))
+						e.fact(implies(not(ok), fmt.Sprintf("(forall ((x %s)) (! (=> (select (select %s %s) x) (select %s x)) :pattern ((select (select %s %s) x)) :pattern ((select %s x))))", ks, d, m, v, d, m, v)))
+						nv := e.fresh("visited", cell.Sort)
+						e.fact(eq(nv, fmt.Sprintf("(ite %s (store %s %s true) %s)", ok, v, kv.T, v)))
+						st.cells[gid] = &Val{Sort: cell.Sort, T: nv}
+					}
+				}
 			}
 		}
 	}
